@@ -16,7 +16,7 @@ CLAIMED = {
 		'Decides exhaustively over finite tables: the grammar ladder is order-isomorphic to ast._Precedence for all ~25 common tokens; each of ~300 child selectors in the node classes addresses a child the grammar can produce at that position for every mapped tag, with satisfiable class assertions; no unconditional class shadows later candidates of its tag; constant indexing into repeated slots is reported (F7 known finding). Tree equality with ast.parse over all programs is not decided.',
 		'tree shapes from lark compiled rules; LALR automaton and indenter not modelled', 'DESIGN.md §4 C02'),
 	'C03': ('other', 'stub-signature vs CPython result-type table, token->dunder table via probe object, literal-handler table, anchoring lint on index paths',
-		'Decides four narrow necessary conditions: stub operator/conversion signatures equal the types CPython computes on constants for every admitted operand type; the operator token->dunder table equals CPython dispatch; literal handlers name the right standard type; index-path containment tests are "."-anchored; operators typed without an operand check yield CPython's result type for every scalar operand (F11/F12 known); a flattened operator chain is typed with the operator of each step. Scope lookup / template substitution over run-time data is not decided.',
+		'Decides four narrow necessary conditions: stub operator/conversion signatures equal the types CPython computes on constants for every admitted operand type; the operator token->dunder table equals CPython dispatch; literal handlers name the right standard type; index-path containment tests are "."-anchored; operators typed without an operand check yield the result type of CPython for every scalar operand (F11/F12 known); a flattened operator chain is typed with the operator of each step. Scope lookup / template substitution over run-time data is not decided.',
 		'CPython builtins are the oracle (evaluated on constants, no tranp code runs)', 'DESIGN.md §4 C03'),
 	'C04': ('other', 'store pairing along load/unload paths, syntactic nondeterminism-source inventory with positive fixture, global-mutation inventory, in-place-writer call-site analysis for shared reflection symbols',
 		'Decides: every per-module store written on the load path is deleted on the unload path and Modules.unload reaches every owner; no set construction, id/hash or unsorted listing outside a reviewed allow-list on the pipeline; process-global mutation is limited to the reviewed (import-time / pure-cache) sites; the transpiler dependency stack is balanced; every function that writes reflection attrs in place is only handed `.to_temporary()` copies (shared SymbolDB symbols are never rewritten). Equality of outputs across histories and hash seeds is not decided.',
